@@ -12,7 +12,11 @@ class StackFrame:
         self.return_addr = None
 
     def get_variable(self, identifier):
-        for place in (self.constants, self.vars, self.params, self.globals):
+        # Parameters are reachable through vars once the routine has been
+        # entered. While the arguments of a call are still being evaluated,
+        # vars is the caller's scope and the callee's half-filled params must
+        # not be visible.
+        for place in (self.constants, self.vars, self.globals):
             if identifier in place:
                 return place[identifier]
         return None
